@@ -101,6 +101,24 @@ func render(p program) rendered {
 				emit(s.N, fmt.Sprintf(`%sreturn "v%d";`, ind, s.N))
 			case "err":
 				emit(s.N, ind+"error 601;")
+			case "nop":
+				emit(s.N, ind+"break;")
+			case "sw":
+				emit(s.N, ind+"switch (req.http.T) {")
+				for i, a := range s.Arms {
+					if i == 0 {
+						emit(0, ind+`case "1":`)
+					} else {
+						emit(0, fmt.Sprintf(`%scase "x%d":`, ind, i))
+					}
+					block(a.Body, ind+"  ")
+					if i < len(s.Arms)-1 {
+						emit(a.N, ind+"  fallthrough;")
+					} else {
+						emit(a.N, ind+"  break;")
+					}
+				}
+				emit(0, ind+"}")
 			case "if":
 				for i, a := range s.Arms {
 					if i == 0 {
